@@ -824,6 +824,42 @@ func runC14(a runArgs) error {
 		}
 		e.Add(coq, c14Desc(cs), true, "free", "free="+kind)
 	}
+	// (5) the same amplification for EVERY mutating method: several calls of one method (and of pairs of
+	// methods) on one key, over an absent, a present and an expired entry, released together. A compound
+	// operation that is split into a read-locked check and a later write-locked act brings no yield point
+	// with it; only this finds it.
+	for mi, mk := range c14Makers {
+		if !c14Mutates(mk.mk(&c14Gen{}, 1).Kind) {
+			continue
+		}
+		for _, which := range []int{0, 1, 3} {
+			reps := 1
+			if thorough {
+				reps = 4
+			}
+			for rep := 0; rep < reps; rep++ {
+				g := &c14Gen{}
+				cs := &c14Case{Free: true, Init: c14Inits(g, which)}
+				nth := 2 + (mi+which+rep)%2
+				for t := 0; t < nth; t++ {
+					cs.Progs = append(cs.Progs, []c14Op{mk.mk(g, 1)})
+				}
+				if rep%2 == 1 {
+					// mix with another mutating method on the same key
+					other := c14Makers[(mi+7+rep)%len(c14Makers)]
+					if c14Mutates(other.mk(&c14Gen{}, 1).Kind) {
+						cs.Progs = append(cs.Progs, []c14Op{other.mk(g, 1)})
+					}
+				}
+				coq, piled := c14RunBarrier(cs)
+				if piled {
+					piledCnt++
+				}
+				nb++
+				e.Add(coq, c14Desc(cs), true, "free", "free="+mk.name)
+			}
+		}
+	}
 	e.Extra["schedules_forced"] = schedules
 	e.Extra["barrier_runs"] = nb
 	e.Extra["barrier_runs_all_threads_piled_up"] = piledCnt
